@@ -352,11 +352,12 @@ def concretise(ctx, shapes):
     reqs = [s for s in shapes if s["k"] == "req"]
     replies = [s for s in shapes if s["k"] == "reply"]
     targets = ["scrape", "ann_ih", "ann_pid"]
-    for i, sh in enumerate(urls):
-        for j, t in enumerate(targets):
-            if quick and j != i % 3:
-                continue
-            g.url_case(sh, t, counted=True)
+    for rnd in range(1 if quick else 2):
+        for i, sh in enumerate(urls):
+            for j, t in enumerate(targets):
+                if quick and j != i % 3:
+                    continue
+                g.url_case(sh, t, counted=True)
     # identifiers with every byte value in every form must have been accepted
     for kind in ("raw", "escU", "escL", "escM"):
         guard = 0
@@ -366,17 +367,17 @@ def concretise(ctx, shapes):
             if guard > 100:
                 raise ToolError("byte coverage loop does not terminate")
     for sh in queries:
-        for _ in range(1 if quick else 3):
+        for _ in range(1 if quick else 5):
             g.query_case(sh)
     for sh in reqs:
-        for _ in range(1 if quick else 4):
+        for _ in range(1 if quick else 6):
             g.req_case(sh)
-    for _ in range(150 if quick else 3000):
+    for _ in range(150 if quick else 8000):
         g.random_req()
     while not g.rt_cover.done():
         g.random_req()
     for sh in replies:
-        for _ in range(2 if quick else 8):
+        for _ in range(2 if quick else 12):
             g.reply_case(sh)
     # larger replies than the shapes of the model
     big = [(7, 0), (0, 7), (50, 50), (200, 3)] if quick else [(7, 0), (0, 7), (50, 50), (200, 3), (3, 200), (1000, 1000)]
@@ -386,7 +387,7 @@ def concretise(ctx, shapes):
     for n in ([17, 60] if quick else [17, 60, 100, 300]):
         for order in ("sorted", "reversed", "mixed"):
             g.reply_case({"kind": "scrape", "order": order}, n=n)
-    for _ in range(20 if quick else 300):
+    for _ in range(20 if quick else 800):
         g.reply_case({"kind": "announce", "text": g.rng.choice(["absent", "empty", "short", "utf8", "long"])},
                      n4=g.rng.randrange(0, 12), n6=g.rng.randrange(0, 12))
         g.reply_case({"kind": "failure", "text": g.rng.choice(["empty", "short", "utf8", "long"])})
@@ -468,51 +469,55 @@ SELFTESTS = [mutate_reply_bytes, mutate_decoded_id, mutate_accept_broken_id, mut
              mutate_parsed_swap]
 
 
-def measure(ctx, tpath):
-    """coverage measured on the recorded trace"""
+def measure(ctx, tpaths):
+    """coverage measured on the recorded traces"""
     cls = {}
     forms = {"raw": set(), "escU": set(), "escL": set(), "escM": set()}
     rt_bytes = set()
     st = {}
     sizes = {"max_peers": 0, "max_peers6": 0, "max_files": 0, "max_text": 0, "max_scrape_hashes": 0}
-    for line in open(tpath):
-        e = json.loads(line)
-        if e["ev"] == "reset":
-            continue
-        top = "/".join(e["cls"].split("/")[:2])
-        cls[top] = cls.get(top, 0) + 1
-        if e["ev"] == "get_path":
-            k = "get_path:" + e["res"]["st"]
-            st[k] = st.get(k, 0) + 1
-            if e["res"]["st"] == "ok":
-                for kind, b in e["units"]:
-                    forms[kind].add(b)
-            if e["http"]:
-                st["get_path_also_via_parse_bytes"] = st.get("get_path_also_via_parse_bytes", 0) + 1
-        elif e["ev"] == "req_rt":
-            k = "req_rt:" + e["res"]["st"]
-            st[k] = st.get(k, 0) + 1
-            if e["res"]["st"] == "ok":
-                r = e["req"]
-                ids = [r["info_hash"], r["peer_id"]] if r["kind"] == "announce" else r["info_hashes"]
-                for x in ids:
-                    rt_bytes.update(x)
-                if r["kind"] == "scrape":
-                    sizes["max_scrape_hashes"] = max(sizes["max_scrape_hashes"], len(ids))
-        else:
-            k = "reply:" + e["parsed"]["st"]
-            st[k] = st.get(k, 0) + 1
-            r = e["reply"]
-            if r["kind"] == "announce":
-                sizes["max_peers"] = max(sizes["max_peers"], len(r["peers"]))
-                sizes["max_peers6"] = max(sizes["max_peers6"], len(r["peers6"]))
-                for w in r["warning"]:
-                    sizes["max_text"] = max(sizes["max_text"], len(w))
-            elif r["kind"] == "scrape":
-                sizes["max_files"] = max(sizes["max_files"], len(r["files"]))
+    for tpath in tpaths:
+        for line in open(tpath):
+            e = json.loads(line)
+            if e["ev"] == "reset":
+                continue
+            top = "/".join(e["cls"].split("/")[:2])
+            cls[top] = cls.get(top, 0) + 1
+            if e["ev"] == "get_path":
+                k = "get_path:" + e["res"]["st"]
+                st[k] = st.get(k, 0) + 1
+                if e["res"]["st"] == "ok":
+                    for kind, b in e["units"]:
+                        forms[kind].add(b)
+                if e["http"]:
+                    st["get_path_also_via_parse_bytes"] = st.get("get_path_also_via_parse_bytes", 0) + 1
+            elif e["ev"] == "req_rt":
+                k = "req_rt:" + e["res"]["st"]
+                st[k] = st.get(k, 0) + 1
+                if e["res"]["st"] == "ok":
+                    r = e["req"]
+                    ids = [r["info_hash"], r["peer_id"]] if r["kind"] == "announce" else r["info_hashes"]
+                    for x in ids:
+                        rt_bytes.update(x)
+                    if r["kind"] == "scrape":
+                        sizes["max_scrape_hashes"] = max(sizes["max_scrape_hashes"], len(ids))
             else:
-                sizes["max_text"] = max(sizes["max_text"], len(r["reason"]))
+                k = "reply:" + e["parsed"]["st"]
+                st[k] = st.get(k, 0) + 1
+                r = e["reply"]
+                if r["kind"] == "announce":
+                    sizes["max_peers"] = max(sizes["max_peers"], len(r["peers"]))
+                    sizes["max_peers6"] = max(sizes["max_peers6"], len(r["peers6"]))
+                    for w in r["warning"]:
+                        sizes["max_text"] = max(sizes["max_text"], len(w))
+                elif r["kind"] == "scrape":
+                    sizes["max_files"] = max(sizes["max_files"], len(r["files"]))
+                else:
+                    sizes["max_text"] = max(sizes["max_text"], len(r["reason"]))
     return cls, forms, rt_bytes, st, sizes
+
+
+CHUNK = 4000      # cases per trace file (bounds the memory of one TLC validation run)
 
 
 def run(ctx):
@@ -539,29 +544,38 @@ def run(ctx):
 
     # 2. values
     cases = concretise(ctx, shapes)
-    cpath = ctx.path("cases.jsonl")
-    with open(cpath, "w") as f:
-        for c in cases:
-            f.write(json.dumps(c, separators=(",", ":")) + "\n")
     ctx.stage("cases", n=len(cases))
 
-    # 3. the real library
-    tpath = ctx.path("trace.ndjson")
-    run_harness(ctx, "http_codec", [cpath, tpath], timeout=900)
-    nev, npanic = count_events(tpath)
-    cls, forms, rt_bytes, st, sizes = measure(ctx, tpath)
-
-    # 4a. every generated input lies inside the domain of the statement (generator fault otherwise)
-    dom = validate_trace(ctx, "HttpCodec_Trace", "HttpCodec_Trace.cfg", tpath, timeout=2400,
-                         name="domain", env={"J_DOMAIN_ONLY": "1"})
-    if not dom["accepted"]:
-        raise ToolError("generated case outside the domain of the statement (event %d): %s"
-                        % (dom["matched"] + 1, json.dumps(dom["event"])[:1500]))
-    ctx.stage("domain", events=dom["total"], wall_s=dom["wall_s"])
-
-    # 4b. the verdict
-    accepted, failures = validate_and_report(ctx, "HttpCodec_Trace", "HttpCodec_Trace.cfg", tpath,
-                                             "codec", classify, None, max_failures=8)
+    tpaths = []
+    failures = []
+    nev = npanic = nruns = 0
+    for ci in range(0, len(cases), CHUNK):
+        n = ci // CHUNK
+        cpath = ctx.path("cases_%d.jsonl" % n)
+        with open(cpath, "w") as f:
+            for c in cases[ci:ci + CHUNK]:
+                f.write(json.dumps(c, separators=(",", ":")) + "\n")
+        # 3. the real library
+        tpath = ctx.path("trace_%d.ndjson" % n)
+        run_harness(ctx, "http_codec", [cpath, tpath], timeout=900)
+        tpaths.append(tpath)
+        e, p = count_events(tpath)
+        nev += e
+        npanic += p
+        nruns += len(split_runs(tpath))
+        # 4a. every generated input lies inside the domain of the statement (generator fault otherwise)
+        dom = validate_trace(ctx, "HttpCodec_Trace", "HttpCodec_Trace.cfg", tpath, timeout=2400,
+                             name="domain%d" % n, env={"J_DOMAIN_ONLY": "1"})
+        if not dom["accepted"]:
+            raise ToolError("generated case outside the domain of the statement (event %d of chunk %d): %s"
+                            % (dom["matched"] + 1, n, json.dumps(dom["event"])[:1500]))
+        ctx.stage("domain", chunk=n, events=dom["total"], wall_s=dom["wall_s"])
+        # 4b. the verdict
+        acc, fl = validate_and_report(ctx, "HttpCodec_Trace", "HttpCodec_Trace.cfg", tpath,
+                                      "codec%d" % n, classify, None, max_failures=6)
+        failures += fl
+    cls, forms, rt_bytes, st, sizes = measure(ctx, tpaths)
+    tpath = tpaths[0]
 
     # 5. the binding is not vacuous
     if not failures:
@@ -585,7 +599,7 @@ def run(ctx):
                 "equal, reply bytes = reference bencode byte for byte, reply read back equal",
         "shapes": by_kind,
         "cases_executed": len(cases),
-        "events_judged": nev - len(split_runs(tpath)),
+        "events_judged": nev - nruns,
         "cases_by_class": cls,
         "observed": st,
         "identifier_byte_values_accepted": {k: len(v) for k, v in forms.items()},
